@@ -350,15 +350,25 @@ impl Variant {
         if round_right.is_approximately_zero()? {
             Err(VariantError::DivisionByZero)
         } else {
-            match round_left {
-                Self::VInteger(i_left) => match round_right {
-                    Self::VInteger(i_right) => Ok(Self::VInteger(i_left % i_right)),
-                    Self::VLong(_) => Err(VariantError::Overflow),
-                    _ => Err(VariantError::TypeMismatch),
-                },
-                Self::VLong(_) => Err(VariantError::Overflow),
-                _ => Err(VariantError::TypeMismatch),
+            // the remainder has the sign of the dividend and never exceeds the divisor,
+            // so it fits whenever both operands fit a LONG
+            let left: i64 = round_left.to_long_operand()?;
+            let right: i64 = round_right.to_long_operand()?;
+            let remainder = left % right;
+            match (&round_left, &round_right) {
+                (Self::VInteger(_), Self::VInteger(_)) => Ok(Self::VInteger(remainder as i32)),
+                _ => Ok(Self::VLong(remainder)),
             }
+        }
+    }
+
+    /// The operand of MOD as a long, after rounding.
+    fn to_long_operand(&self) -> Result<i64, VariantError> {
+        match self {
+            Self::VInteger(i) => Ok(*i as i64),
+            Self::VLong(l) => Ok(*l),
+            Self::VSingle(_) | Self::VDouble(_) => Err(VariantError::Overflow),
+            _ => Err(VariantError::TypeMismatch),
         }
     }
 
